@@ -166,8 +166,41 @@ def rule_r4(ctx):
                                      "%s decides with the socket's default %s.%s although every context carries its own %s.%s: a "
                                      "context configured differently from the socket gets the wrong behaviour"
                                      % (f.name, sname, fld, cname, fld))
-    if n < 2:
-        raise AnalysisBroken("only %d reads of socket-level defaults that contexts shadow" % n)
+    # (b) the socket's own (master) context is just another context: its copy of a per-context option is the default a new
+    #     context starts from, not a value to decide another context's exchange with
+    nb = 0
+    for sname, srec in recs.items():
+        if not sname.endswith("_sock"):
+            continue
+        cname = sname[:-5] + "_ctx"
+        if cname not in recs:
+            continue
+        pol = set()
+        for f in prog.functions:
+            if f.name in setget and not f.cfg_failed:
+                for s_ in f.sites():
+                    for m in walk(s_.node):
+                        if m.get("k") == "mem" and m.get("rec") == cname and not (m.get("t") or "").endswith("*"):
+                            pol.add(m["f"])
+        for f in prog.functions:
+            if f.cfg_failed or "/protocol/" not in f.file:
+                continue
+            seen_lines = set()
+            for s_ in f.sites():
+                for m in walk(s_.node):
+                    if m.get("k") == "mem" and m.get("rec") == cname and m["f"] in pol and m["b"].get("k") == "mem" and \
+                            m["b"].get("rec") == sname and (f.name, s_.line, m["f"]) not in seen_lines:
+                        seen_lines.add((f.name, s_.line, m["f"]))
+                        nb += 1
+                        if f.name in init or f.name in setget or f.name.endswith(("_sock_init", "_ctx_init")):
+                            r.ob(f, "%s read by an initialiser / option function" % show(m))
+                        else:
+                            ctx.fail(r, f, "%s.%s of the socket's own context read outside the initialiser and option functions" % (cname, m["f"]),
+                                     s_.line, "%s decides with %s, the option value of the socket's own context, although the "
+                                     "context it works for carries its own %s.%s: a context configured differently from the "
+                                     "socket gets the wrong behaviour" % (f.name, show(m), cname, m["f"]))
+    if n < 2 or nb < 2:
+        raise AnalysisBroken("only %d / %d reads of socket-level defaults that contexts shadow" % (n, nb))
 
 
 def walk_global(g):
